@@ -62,8 +62,10 @@ theorem sub_between (d x y : Name) (h1 : cmpOrder d x < 0) (h2 : cmpOrder x y < 
     unfold revLower; rw [← hP]; simp
   rcases h1 with ⟨a1, a2⟩ | ⟨a1, l1⟩ <;> rcases h2 with ⟨b1, b2⟩ | ⟨b1, l2⟩
   · rw [a2] at b1; cases b1
-  · rw [← b1, a2] at habs; rw [a1] at habs; cases habs
-  · rw [b2, ← a1, b1] at habs; cases habs
+  · exfalso; revert a1 a2 b1 habs
+    cases isAbs d <;> cases isAbs x <;> cases isAbs y <;> simp
+  · exfalso; revert a1 b1 b2 habs
+    cases isAbs d <;> cases isAbs x <;> cases isAbs y <;> simp
   · rw [hry] at l2
     have hp := lex_between _ _ _ l1 l2
     refine ⟨a1.symm, ?_⟩
